@@ -39,6 +39,48 @@ pub enum Eval {
     FoldConst,
     /// fails at the given fold (mapped into 0..k), AbsErr elsewhere
     FailAt(u16),
+    /// AbsErr, except that in target column `col % columns` the fold `fold` (mapped into 0..k) scores
+    /// kind 0: +inf, 1: -inf, 2: NaN, 3: 1e300, 4: +1.5e308 there and -1.5e308 in the following fold (cyclically)
+    Extreme { fold: u16, kind: u8, col: u8 },
+}
+
+/// The value an `Eval::Extreme` closure returns instead of the absolute error, if any.
+fn extreme_override(eval: &Eval, k: usize, cols: usize, fold: usize, col: usize) -> Option<f64> {
+    if let Eval::Extreme { fold: f, kind, col: cc } = eval {
+        let f0 = idx(*f, k);
+        if col != (*cc as usize) % cols.max(1) {
+            return None;
+        }
+        match kind % 5 {
+            0 => (fold == f0).then_some(f64::INFINITY),
+            1 => (fold == f0).then_some(f64::NEG_INFINITY),
+            2 => (fold == f0).then_some(f64::NAN),
+            3 => (fold == f0).then_some(1e300),
+            _ => {
+                if fold == f0 {
+                    Some(1.5e308)
+                } else if fold == (f0 + 1) % k {
+                    Some(-1.5e308)
+                } else {
+                    None
+                }
+            }
+        }
+    } else {
+        None
+    }
+}
+
+/// Equality of a reported mean with the reference mean: non-finite means must be the same non-finite value;
+/// finite ones agree within 1e-9 relative to the largest fold score (the rounding of a k-term sum).
+fn mean_matches(got: f64, want: f64, scale: f64) -> bool {
+    if want.is_nan() {
+        return got.is_nan();
+    }
+    if want.is_infinite() {
+        return got == want;
+    }
+    got.is_finite() && (got - want).abs() <= 1e-9 + 1e-9 * scale.max(want.abs())
 }
 
 #[derive(Debug, Clone, Serialize, Deserialize)]
@@ -56,6 +98,38 @@ pub struct Case {
     /// 2 = rows reversed through a negative stride (view-backed datasets only, otherwise as 1)
     #[serde(default)]
     pub layout: u8,
+    /// feature / target names: 0 = none, 1 = names for every feature and target column, 2 = feature names plus
+    /// STALE target names (set for targets with one column more, then the targets were replaced through
+    /// `with_targets`, which keeps the old names)
+    #[serde(default)]
+    pub names: u8,
+}
+
+fn name_list(prefix: &str, n: usize) -> Vec<String> {
+    (0..n).map(|i| format!("{prefix}{i}")).collect()
+}
+/// Attach names as the case asks (see `Case::names`); every call used here is public API that does not panic.
+fn named<R, T>(ds: DatasetBase<R, T>, c: &Case) -> DatasetBase<R, T>
+where
+    R: linfa::dataset::Records,
+    T: linfa::dataset::AsTargets<Elem = f64>,
+{
+    use linfa::dataset::Records as _;
+    match c.names {
+        0 => ds,
+        1 => {
+            let (p, t) = (ds.nfeatures(), ds.ntargets());
+            ds.with_feature_names(name_list("f", p)).with_target_names(name_list("t", t))
+        }
+        _ => {
+            let (n, p, t) = (ds.nsamples(), ds.nfeatures(), ds.ntargets());
+            let DatasetBase { records, targets, .. } = ds;
+            DatasetBase::new(records, Array2::<f64>::zeros((n, t + 1)))
+                .with_feature_names(name_list("f", p))
+                .with_target_names(name_list("old", t + 1))
+                .with_targets(targets)
+        }
+    }
 }
 
 fn rec(i: usize, j: usize) -> f64 {
@@ -170,6 +244,11 @@ fn classify(c: &Case, obs: &mut Obs) {
     obs.class_if(c.t >= 2, "targets_2d_multi");
     obs.class_if(eff_layout(c) == 1, "layout_column_major");
     obs.class_if(eff_layout(c) == 2, "layout_reversed_rows_view");
+    if let Eval::Extreme { kind, .. } = &c.eval {
+        obs.class(["eval_pos_inf", "eval_neg_inf", "eval_nan", "eval_1e300", "eval_huge_opposite_pair"][(*kind % 5) as usize]);
+    }
+    obs.class_if(c.names == 1, "named_features_and_targets");
+    obs.class_if(c.names >= 2, "stale_target_names_after_with_targets");
     obs.class_if(c.view, "view_backed");
     obs.class_if(!c.view, "owned");
     obs.nontrivial_if(c.n % c.k != 0 || c.t >= 2 || c.models.len() >= 2);
@@ -240,12 +319,12 @@ fn check_fold(c: &Case, obs: &mut Obs) {
         let targets = make_t1_l(c.n, l);
         if c.view {
             if l == 2 {
-                run!(DatasetBase::new(records.slice(s![..;-1, ..]), targets.slice(s![..;-1])));
+                run!(named(DatasetBase::new(records.slice(s![..;-1, ..]), targets.slice(s![..;-1])), c));
             } else {
-                run!(DatasetBase::new(records.view(), targets.view()));
+                run!(named(DatasetBase::new(records.view(), targets.view()), c));
             }
         } else {
-            let ds = DatasetBase::new(records.clone(), targets.clone());
+            let ds = named(DatasetBase::new(records.clone(), targets.clone()), c);
             if let Some(p) = obs.call("fold", || ds.fold(c.k)) {
                 check_fold_pairs(c, obs, p, std::marker::PhantomData::<()>);
             }
@@ -259,12 +338,12 @@ fn check_fold(c: &Case, obs: &mut Obs) {
         let targets = make_t2_l(c.n, c.t, l);
         if c.view {
             if l == 2 {
-                run!(DatasetBase::new(records.slice(s![..;-1, ..]), targets.slice(s![..;-1, ..])));
+                run!(named(DatasetBase::new(records.slice(s![..;-1, ..]), targets.slice(s![..;-1, ..])), c));
             } else {
-                run!(DatasetBase::new(records.view(), targets.view()));
+                run!(named(DatasetBase::new(records.view(), targets.view()), c));
             }
         } else {
-            let ds = DatasetBase::new(records.clone(), targets.clone());
+            let ds = named(DatasetBase::new(records.clone(), targets.clone()), c);
             if let Some(p) = obs.call("fold", || ds.fold(c.k)) {
                 check_fold_pairs(c, obs, p, std::marker::PhantomData::<()>);
             }
@@ -387,14 +466,14 @@ fn check_iter_fold(c: &Case, obs: &mut Obs) {
         let mut targets = make_t1_l(c.n, l);
         if c.view {
             if l == 2 {
-                let mut ds = DatasetBase::new(records.slice_mut(s![..;-1, ..]), targets.slice_mut(s![..;-1]));
+                let mut ds = named(DatasetBase::new(records.slice_mut(s![..;-1, ..]), targets.slice_mut(s![..;-1])), c);
                 panicked = iter_fold_body!(c, obs, ds, accept);
             } else {
-                let mut ds = DatasetBase::new(records.view_mut(), targets.view_mut());
+                let mut ds = named(DatasetBase::new(records.view_mut(), targets.view_mut()), c);
                 panicked = iter_fold_body!(c, obs, ds, accept);
             }
         } else {
-            let mut ds = DatasetBase::new(records, targets);
+            let mut ds = named(DatasetBase::new(records, targets), c);
             panicked = iter_fold_body!(c, obs, ds, accept);
             records = ds.records().clone();
             targets = ds.targets().clone();
@@ -409,14 +488,14 @@ fn check_iter_fold(c: &Case, obs: &mut Obs) {
         let mut targets = make_t2_l(c.n, c.t, l);
         if c.view {
             if l == 2 {
-                let mut ds = DatasetBase::new(records.slice_mut(s![..;-1, ..]), targets.slice_mut(s![..;-1, ..]));
+                let mut ds = named(DatasetBase::new(records.slice_mut(s![..;-1, ..]), targets.slice_mut(s![..;-1, ..])), c);
                 panicked = iter_fold_body!(c, obs, ds, accept);
             } else {
-                let mut ds = DatasetBase::new(records.view_mut(), targets.view_mut());
+                let mut ds = named(DatasetBase::new(records.view_mut(), targets.view_mut()), c);
                 panicked = iter_fold_body!(c, obs, ds, accept);
             }
         } else {
-            let mut ds = DatasetBase::new(records, targets);
+            let mut ds = named(DatasetBase::new(records, targets), c);
             panicked = iter_fold_body!(c, obs, ds, accept);
             records = ds.records().clone();
             targets = ds.targets().clone();
@@ -535,6 +614,11 @@ fn fold_of_truth(first_truth: f64, n: usize, k: usize) -> usize {
 
 /// Expected score matrix `[model][column]` or the set of error strings that may surface.
 fn reference_scores(c: &Case) -> Result<Vec<Vec<f64>>, Vec<String>> {
+    reference_scores_scaled(c).map(|x| x.0)
+}
+
+/// (means, largest absolute fold score) per model and column
+fn reference_scores_scaled(c: &Case) -> Result<(Vec<Vec<f64>>, Vec<Vec<f64>>), Vec<String>> {
     let cols = c.t.max(1);
     let mut errors = vec![];
     for (mi, m) in c.models.iter().enumerate() {
@@ -552,6 +636,7 @@ fn reference_scores(c: &Case) -> Result<Vec<Vec<f64>>, Vec<String>> {
         return Err(errors);
     }
     let mut out = vec![vec![0.0; cols]; c.models.len()];
+    let mut scale = vec![vec![0.0f64; cols]; c.models.len()];
     for i in 0..c.k {
         let train = ref_train(c.n, c.k, i);
         let shift = (train.iter().sum::<usize>() % 5) as f64;
@@ -573,7 +658,11 @@ fn reference_scores(c: &Case) -> Result<Vec<Vec<f64>>, Vec<String>> {
                         })
                         .sum(),
                 };
+                let v = extreme_override(&c.eval, c.k, cols, i, col).unwrap_or(v);
                 out[mi][col] += v;
+                if v.is_finite() {
+                    scale[mi][col] = scale[mi][col].max(v.abs());
+                }
             }
         }
     }
@@ -582,13 +671,13 @@ fn reference_scores(c: &Case) -> Result<Vec<Vec<f64>>, Vec<String>> {
             *v /= c.k as f64;
         }
     }
-    Ok(out)
+    Ok((out, scale))
 }
 
 fn judge_cv(c: &Case, obs: &mut Obs, got: Result<Vec<Vec<f64>>, String>, shape_ok: bool) {
-    let want = reference_scores(c);
+    let want = reference_scores_scaled(c);
     match (got, want) {
-        (Ok(g), Ok(w)) => {
+        (Ok(g), Ok((w, scale))) => {
             obs.ensure(shape_ok, "cv:shape", || "score array has the wrong shape".into());
             if g.len() != w.len() || g.iter().zip(&w).any(|(a, b)| a.len() != b.len()) {
                 obs.fail("cv:shape", format!("score array {:?} vs expected {:?}", g, w));
@@ -596,7 +685,7 @@ fn judge_cv(c: &Case, obs: &mut Obs, got: Result<Vec<Vec<f64>>, String>, shape_o
             }
             for (mi, (gr, wr)) in g.iter().zip(&w).enumerate() {
                 for (col, (a, b)) in gr.iter().zip(wr).enumerate() {
-                    obs.ensure(vengine::num::close(*a, *b, 1e-9, 1e-9), "cv:mean-score", || {
+                    obs.ensure(mean_matches(*a, *b, scale[mi][col]), "cv:mean-score", || {
                         format!("model {mi} column {col}: reported {a}, mean over the {} reference folds is {b}", c.k)
                     });
                 }
@@ -648,6 +737,10 @@ macro_rules! cv_body {
                 }
                 let mut out = vec![0.0; cols];
                 for col in 0..cols {
+                    if let Some(v) = extreme_override(&evalk, k, cols, fold, col) {
+                        out[col] = v;
+                        continue;
+                    }
                     out[col] = match evalk {
                         Eval::FoldConst => (fold as f64 + 1.0) * 1.5 + col as f64,
                         _ => (0..td.shape()[0])
@@ -716,14 +809,14 @@ fn check_cv(c: &Case, obs: &mut Obs) {
         let to0 = |v: Vec<f64>| ndarray::arr0(v[0]);
         if c.view {
             if l == 2 {
-                let mut ds = DatasetBase::new(records.slice_mut(s![..;-1, ..]), targets.slice_mut(s![..;-1]));
+                let mut ds = named(DatasetBase::new(records.slice_mut(s![..;-1, ..]), targets.slice_mut(s![..;-1])), c);
                 cv_body!(c, obs, ds, true, to0, accept);
             } else {
-                let mut ds = DatasetBase::new(records.view_mut(), targets.view_mut());
+                let mut ds = named(DatasetBase::new(records.view_mut(), targets.view_mut()), c);
                 cv_body!(c, obs, ds, true, to0, accept);
             }
         } else {
-            let mut ds = DatasetBase::new(records, targets);
+            let mut ds = named(DatasetBase::new(records, targets), c);
             cv_body!(c, obs, ds, true, to0, accept);
             records = ds.records().clone();
             targets = ds.targets().clone();
@@ -744,7 +837,7 @@ fn check_cv(c: &Case, obs: &mut Obs) {
                 .enumerate()
                 .map(|(i, m)| MockParams { id: i, a: m.a as f64, b: m.b as f64, fail_at: None, calls: Cell::new(0), partial: m.partial })
                 .collect();
-            let mut ds = DatasetBase::new(records0.clone(), targets0.clone());
+            let mut ds = named(DatasetBase::new(records0.clone(), targets0.clone()), c);
             let r = obs.call("cross_validate_single", || {
                 let r: Result<Array1<f64>, MockError> = ds.cross_validate_single(c.k, &params, |p, t| {
                     Ok(p.iter().zip(t.iter()).map(|(a, b)| (a - b).abs()).sum::<f64>())
@@ -772,14 +865,14 @@ fn check_cv(c: &Case, obs: &mut Obs) {
         let to1 = |v: Vec<f64>| Array1::from(v);
         if c.view {
             if l == 2 {
-                let mut ds = DatasetBase::new(records.slice_mut(s![..;-1, ..]), targets.slice_mut(s![..;-1, ..]));
+                let mut ds = named(DatasetBase::new(records.slice_mut(s![..;-1, ..]), targets.slice_mut(s![..;-1, ..])), c);
                 cv_body!(c, obs, ds, false, to1, accept);
             } else {
-                let mut ds = DatasetBase::new(records.view_mut(), targets.view_mut());
+                let mut ds = named(DatasetBase::new(records.view_mut(), targets.view_mut()), c);
                 cv_body!(c, obs, ds, false, to1, accept);
             }
         } else {
-            let mut ds = DatasetBase::new(records, targets);
+            let mut ds = named(DatasetBase::new(records, targets), c);
             cv_body!(c, obs, ds, false, to1, accept);
             records = ds.records().clone();
             targets = ds.targets().clone();
@@ -826,11 +919,13 @@ fn case_strategy(max_n: usize, with_models: bool) -> impl Strategy<Value = Case>
         4 => Just(Eval::AbsErr),
         2 => Just(Eval::FoldConst),
         1 => any::<u16>().prop_map(Eval::FailAt),
+        2 => (any::<u16>(), 0u8..5, 0u8..4).prop_map(|(fold, kind, col)| Eval::Extreme { fold, kind, col }),
     ];
+    let names = prop_oneof![4 => Just(0u8), 1 => Just(1u8), 1 => Just(2u8)];
     let layout = prop_oneof![5 => Just(0u8), 2 => Just(1u8), 1 => Just(2u8)];
     let nfeat = prop_oneof![1 => Just(0usize), 12 => 1usize..=4];
-    (nk(max_n), nfeat, 0usize..=3, any::<bool>(), models, eval, layout).prop_map(
-        |((n, k), p, t, view, models, eval, layout)| Case { n, k, p, t, view, models, eval, layout },
+    (nk(max_n), nfeat, 0usize..=3, any::<bool>(), models, eval, layout, names).prop_map(
+        |((n, k), p, t, view, models, eval, layout, names)| Case { n, k, p, t, view, models, eval, layout, names },
     )
 }
 
@@ -851,6 +946,7 @@ fn all_nk(max_n: usize) -> Vec<Case> {
                     ],
                     eval: Eval::AbsErr,
                     layout: [0u8, 0, 1, 2][(n * 3 + k + t) % 4],
+                    names: [0u8, 1, 2][(n + 2 * k + t) % 3],
                 });
             }
         }
@@ -869,7 +965,8 @@ pub fn property() -> Property {
             "k = 0 and k > n are documented panics and are not generated".into(),
             "iter_fold / cross_validate document a panic for data not stored contiguously in standard order: for column-major and reversed-row layouts that panic is an accepted outcome (the dataset must still be intact), but an answer is judged like any other; fold() must work for every layout".into(),
             "abstaining mock predictors leave some entries of the target buffer untouched: those entries must hold what default_target gave them (0), whatever other candidate models predicted before".into(),
-            "scores are compared with relative tolerance 1e-9 (all intermediate values are small integers, sums exact)".into(),
+            "scores are compared with relative tolerance 1e-9 (all intermediate values are small integers, sums exact); with an evaluation closure returning +-inf / NaN in one fold the reported mean must be that same non-finite value (the arithmetic mean of the fold scores), with huge finite scores (1e300, +1.5e308 and -1.5e308 in two folds) it must be finite and within 1e-9 of the largest fold score (rounding of a k-term sum in any order)".into(),
+            "datasets may carry feature and target names, including target names left stale by with_targets (public API, no panic): folding must not depend on them".into(),
             "when several injected failures coexist, any one of them may surface".into(),
         ],
         subs: vec![
